@@ -3,6 +3,7 @@
 sub-agent into it (_seeded/BRIEF.md): the property text and the rules, nothing about the checks."""
 import json, os, subprocess, sys
 id, wave = sys.argv[1], sys.argv[2]
+focus = sys.argv[3] if len(sys.argv) > 3 else ""
 wt = f"/tmp/seed-{id}-{wave}"
 if not os.path.isdir(wt):
     subprocess.check_call(["git", "-C", "/repo", "worktree", "add", "-q", "--detach", wt, "HEAD"])
@@ -17,8 +18,9 @@ while os.path.isdir(f"/verif/seeded/{id}-{n}"):
             earlier.append(s[:260])
         else:
             # first paragraph of the notes
-            t = open(f"/verif/seeded/{id}-{n}/notes.md").read().split("\n\n")
-            earlier.append(" ".join((t[1] if len(t) > 1 else t[0]).split())[:260])
+            t = [x for x in open(f"/verif/seeded/{id}-{n}/notes.md").read().split("\n\n") if x.strip() and not x.strip().startswith("#")]
+            t = [" ".join(l for l in x.splitlines() if not l.strip().startswith("#")) for x in t] or [""]
+            earlier.append(" ".join(t[0].split())[:300])
     except Exception:
         pass
     n += 1
@@ -36,7 +38,7 @@ Your task: make ONE realistic source change in the worktree (the kind of change 
  (1) the project still compiles (cd core && go build ./... ; cd server && go build ./...),
  (2) the existing unit tests of the touched packages pass or fail exactly as they did before your change (many tests need etcd/Pulsar/MySQL and fail or hang on the unchanged tree as well: compare before/after, per test with -run if a package aborts; use -vet=off),
  (3) the breakage needs something specific to manifest - a particular input shape, interleaving, fault, crash point, restart or history - so that ordinary smoke use and the existing tests do not show it. A change that breaks the property on every input is NOT wanted; neither is a change far away from the property's code that merely crashes.
-Be subtle, and be different from these earlier changes made for the same property (prefer another function / mechanism):
+{("Preferred focus for this change: " + focus + chr(10)) if focus else ""}Be subtle, and be different from these earlier changes made for the same property (prefer another function / mechanism):
 {el}
 
 Environment: no network. Use `export GOFLAGS=-mod=mod GOPROXY=off GOSUMDB=off` in every shell call; the default `go` (1.23) builds the modules {wt}/core and {wt}/server (server replaces core with ../core). Do not use the `verif` build tag. Unit tests that need external services fail or hang: use `-run` with specific tests and `-timeout 120s`.
